@@ -84,11 +84,11 @@ CHECKS.update({
              note="trusted: Coq kernel + vm_compute; Python harness (generator, printer/parser, dump); modelled not verified: CPython scoping/evaluation on the grammar, libcst, symtable, pickle; outside: "
                   "syntax beyond the grammar, default parameter values, pandas/IOSpec refs, package module globals; six recorded defects avoided and replayed",
              technique="Coq simulation proof (fuel + structural induction) + translation validation of FormulaTransformer + differential testing in a modelx-free subprocess", design="6/C15"),
- "C18": dict(text="Coq proof over all operation sequences (new_pandas/new_module, assignment, rebinding, deletion, update, add/remove_bases, close, sheet/path setters, del_spec) that the IO manager's "
+ "C18": dict(text="Coq proof over all operation sequences (new_pandas/new_module, assignment, rebinding, deletion, update, add/remove_bases, close, sheet/path setters, del_spec, deleting and re-creating top-level spaces) that the IO manager's "
                   "specs are exactly those whose value is bound by a reference of an open model; rejected creations change nothing; no two specs share a location; _check_sanity assertions are "
                   "invariants. Tied to modelx on every run by replaying generated histories and comparing all spec/reference observables after every operation.",
              note="trusted: Coq kernel + vm_compute, drivers/iospec.py, emitter/oracle in props/C18.py; modelled not verified: object identity as tokens, derived refs recomputed; pandas/openpyxl/importlib "
-                  "file round trip checked on the implementation only; histories avoid triggers of 5 recorded defects (abspath delspace emptysheet read_override scalar; rebind_same stale_derived dup update_bound sheet_none sheet_to_none repaired in /repo and generated), closed models and absolute paths",
+                  "file round trip checked on the implementation only; histories avoid triggers of 2 recorded defects (abspath read_override; rebind_same stale_derived dup update_bound sheet_none sheet_to_none delspace scalar emptysheet repaired in /repo and generated), closed models and absolute paths; '' is identified with no sheet name, child spaces are not deleted",
              technique="Coq invariant induction over fold_left step + vm_compute correspondence + implementation-side oracle + stored defect witnesses", design="6/C18"),
  "C20": dict(text="Coq proof over a line/token-position model of formula.py: normalisation to a canonical text, idempotence, name-only rename, docstring-only set_doc with read-back, lambda "
                   "extraction, for all well-formed structured texts; tied to /repo on every run by evaluating the model on the real texts with asttokens positions, plus a behavioural oracle "
